@@ -19,8 +19,8 @@ static const char *STAT_NAMES[ST_N] = { "runs", "ops", "backend_messages", "faul
 enum { K_SLOTS, K_PER, K_FILL, K_N };
 enum { UI_BIND = 0, UI_CLEAR, UI_CLEARSUB, UI_GAIN, UI_OFFSET, HOST_SET, HOST_PAIR, MIDI_CC, MIDI_NRPN };
 
-static const char *BINDABLE[] = {"/pi", "/pi_neg", "/pf", "/pf_log", "/pf_unit", "/pt", "/po_b", "/af1", "/sub/sf", "/subs1/si", "/psub/st", "/ai2"};
-static const int NBIND = 12;
+static const char *BINDABLE[] = {"/pi", "/pi_neg", "/pf", "/pf_log", "/pf_unit", "/pt", "/po_b", "/af1", "/sub/sf", "/subs1/si", "/psub/st", "/ai2", "/odd/vol"};
+static const int NBIND = 13;
 
 struct MSub { bool used = false; int leaf = -1; char type = 0; double mn = 0, mx = 0; bool log = false; float gain = 100, offset = 0; };
 struct MSlot { std::vector<MSub> subs; int cc = -1, nrpn = -1; };
